@@ -1,4 +1,5 @@
 (* Props/C01.v — property C01: the run verdict. *)
+From CV Require Proofs.Compose2.
 From CV Require Import Proofs.SchedP5.
 From CV Require Import Model.Base Model.Events Model.Contract Model.Combinators Model.Stats Model.StatsSpec Model.Pipeline
   Proofs.BaseP Proofs.StatsP Proofs.PipelineP Proofs.PipelineP2.
@@ -144,3 +145,21 @@ Theorem C01_run_and_exit_panics_iff_failed :
                forall k n, In (k, n) parts <-> (0 < n /\ In (k, n) [(0, g_failed g); (1, g_parsing g); (2, g_hooks g)])).
 Proof. exact ExitP.run_and_exit_panics_iff_failed. Qed.
 Print Assumptions C01_run_and_exit_panics_iff_failed.
+
+
+(* ---------- THE VERDICT AND WHAT THE SCHEDULER ACTED ON (review finding H2): for a COMPLETE run whose attempt labels are
+   executions of the attempt model (`Compose2.faithful`), the specified verdict of the emitted stream is "failed" exactly
+   when a parser error occurred or some attempt ended failed with no retry left — the very end on which the scheduler
+   sent the finished-message that trips fail-fast *)
+Theorem C01_verdict_iff_parser_error_or_final_failure :
+  forall c ls s tr inp,
+    Sched.exec c ls = Some (s, tr) -> Compose2.faithful inp ls -> Sched.pc s = Sched.Done ->
+    (StatsSpec.spec_failed tr = true <->
+     (exists id, In (Sched.LParseErr id) ls) \/
+     (exists ls1 k ls2 s1 tr1 s2 f r sc rt m,
+        ls = ls1 ++ Sched.LAttEnd k true :: ls2 /\ Sched.exec c ls1 = Some (s1, tr1) /\
+        Sched.step c s1 (Sched.LAttEnd k true) = Some (s2, [EvScen f r sc rt ScFinished]) /\
+        StatsSpec.retries_left rt = false /\
+        Sched.msgs s2 = Sched.msgs s1 ++ [m] /\ (Sched.m_failed m && negb (Sched.m_retried m) = true)%bool)).
+Proof. exact Compose2.verdict_iff_final_failure_exec. Qed.
+Print Assumptions C01_verdict_iff_parser_error_or_final_failure.
